@@ -50,7 +50,8 @@ THEOREMS = {
     "C13": ("TrVerif.Props.C13", ["Tr.C13_history_independent", "Tr.C13_cache_kind_irrelevant", "Tr.C13_structure"]),
     "C14": ("TrVerif.Props.C14", ["Tr.C14_interleavings", "Tr.C14_progress", "Tr.C14_structure"]),
     "C15": ("TrVerif.Props.C15", ["Tr.C15_answers", "Tr.C15_all", "Tr.C15_schedules", "Tr.C15_old_state_irrelevant", "Tr.C15_status", "Tr.C15_structure", "Tr.C15_order"]),
-    "C17": ("TrVerif.Props.C17", ["Tr.C17_ready_iff", "Tr.C17_names_empty", "Tr.C17_missing_file_not_ready", "Tr.C17_every_request_data_error", "Tr.C17_ready_serves", "Tr.C17_codes", "Tr.C17_tables_cover", "Tr.C17_structure"]),
+    "C17": ("TrVerif.Props.C17All", ["Tr.Load.C17_no_ub", "Tr.Load.C17_conn_forward", "Tr.Load.C17_foot_nonneg", "Tr.Load.C17_missing_not_ready", "Tr.Load.C17_ready_all_nonempty",
+                                      "Tr.Load.C17_guard_needed", "Tr.Load.C17_guard_rejects", "Tr.Load.C17_validation_source", "Tr.Load.connLoop_val", "Tr.C17_ready_iff", "Tr.C17_names_empty", "Tr.C17_missing_file_not_ready", "Tr.C17_every_request_data_error", "Tr.C17_ready_serves", "Tr.C17_codes", "Tr.C17_tables_cover", "Tr.C17_structure"]),
     "C18": ("TrVerif.Props.C18", ["Tr.C18_index_safe", "Tr.C18_forward_guard", "Tr.C18_codes_documented", "Tr.C18_codes_specific", "Tr.C18_defaults", "Tr.C18_update_names"]),
     "C19": ("TrVerif.Props.C19", ["Tr.C19_summary", "Tr.C19_handlers_mirror"]),
     "C20": ("TrVerif.Props.C20", ["Tr.C20_recovery", "Tr.C20_faulted_answer", "Tr.C20_fault_lookup", "Tr.C20_classes", "Tr.C20_structure"]),
@@ -210,13 +211,18 @@ _reg("C16", "PROOF (partial: the data layer only) + differential run of the real
      "written as cache directories with the repository's own schemas, loaded by the real server binary (ASan+UBSan) behind a scripted walking-router stub; every HTTP answer is compared with the "
      "in-memory calculation on the same dataset and with the Lean model, and every itinerary is checked against the dataset by the C01 oracle.",
      "Lean 4 theorems about the model's data layer + differential: real binary on generated cache files vs in-memory calculation vs Lean model")
-_reg("C17", "PROOF (partial: decision logic only): over every assignment of a fetch outcome (read n items / missing / failed after n items) to every cache kind, Tr.C17_ready_iff, "
-     "C17_names_empty, C17_missing_file_not_ready, C17_every_request_data_error, C17_ready_serves - the status is READY exactly when all seven needed collections are non-empty, otherwise it "
-     "names a collection that really is empty, a missing needed file never gives READY, a non-READY server answers every request after every history with data_error and the documented "
-     "MISSING_DATA_* code and keeps its state, a READY one serves what it loaded; load order, status order and code table are regenerated from the source. NOT proved - no executable model "
-     "exhibits it: that every fetch on arbitrary bytes ends in one of these outcomes without abort, uncaught exception or memory error. That part is fault enumeration against the real "
-     "ASan+UBSan binary at start-up and through /updateCache (every file missing / empty / truncated / bit-flipped / zeroed, every cross-file inconsistency incl. boundary counts).",
-     "Lean 4 theorems (loader decision logic, regenerated tables) + fault enumeration against the real sanitized binary")
+_reg("C17", "PROOF (partial: record-level loader model + decision logic; bytes NOT modelled): Model/Load.lean transcribes the seven cache fetchers and loadAllData statement by statement over the "
+     "RECORDS of a cache directory (any uuid texts, any array lengths, any dangling references, duplicates, files missing); exceptions end the enclosing try with the state reached so far, Cap'n Proto "
+     "list reads are checked, `path.nodesRef[i]` is NOT (model outcome `ub`). For EVERY content: Tr.Load.C17_no_ub - loading never makes an unchecked out-of-range access (the trip validation protects "
+     "it; C17_guard_needed / C17_guard_rejects show the model does reach `ub` without it; C17_validation_source pins the guards and the Connection arguments to the text the translator extracts from the "
+     "source NOW); C17_conn_forward - no loaded connection arrives before it departs; C17_foot_nonneg - no loaded footpath has a negative time; C17_missing_not_ready - an absent collection file (or no "
+     "schedule file) never yields READY; C17_ready_all_nonempty. Over every assignment of a fetch outcome to every cache kind: Tr.C17_ready_iff, C17_names_empty, C17_missing_file_not_ready, "
+     "C17_every_request_data_error, C17_ready_serves - a non-READY server answers every request after every history with data_error and the documented MISSING_DATA_* code, a READY one serves what it "
+     "loaded. Tie: check/loader_corr.py - generated directories with each of 37 cross-file inconsistencies (cachegen --break) are decoded to RECORDS (harness/decode.cpp), loaded by the Lean model and "
+     "by the real CacheFetcher + TransitData under ASan (harness/loader_harness.cpp); the two loaded states are compared line by line (every table, footpath vectors, connections in creation order, "
+     "both sorted orders). NOT proved - no executable model exhibits it: the behaviour of the decoder and loaders on arbitrary BYTES (truncation, bit flips). That part is fault enumeration against "
+     "the real ASan+UBSan binary at start-up and through /updateCache (every file missing / empty / truncated / bit-flipped / zeroed, every cross-file inconsistency incl. boundary counts).",
+     "Lean 4 theorems (record-level loader model for all contents, decision logic, regenerated guards and tables) + model/real-loader differential on inconsistent directories + fault enumeration against the real sanitized binary")
 _reg("C18", "PROOF (partial): Tr.C18_index_safe / Tr.C18_forward_guard - both hour look-ups are in range for every integer time and every connection list; documented error codes, "
      "defaults and /updateCache names are regenerated from the source and proved to match the documentation tables. The transport clauses (exactly one response, Content-Length, JSON body, "
      "classification of generated malformed requests, no crash or hang) are observed over raw sockets against the real ASan+UBSan binary.",
